@@ -32,7 +32,26 @@ def _sanitize(x):
 
 
 def validate(spec, module, constants, traces, timeout=900, workers=1,
-             extra_cfg='', max_batch=400, deque=False):
+             extra_cfg='', max_batch=400, deque=False, parallel=1):
+    '''parallel > 1: batches are validated by that many TLC processes at once'''
+    if parallel > 1 and len(traces) > max_batch:
+        from concurrent.futures import ThreadPoolExecutor
+        chunks = [traces[lo:lo + max_batch] for lo in range(0, len(traces), max_batch)]
+        with ThreadPoolExecutor(max_workers=parallel) as pool:
+            outs = list(pool.map(lambda c: _validate(spec, module, constants, c, timeout,
+                                                     workers, extra_cfg, max_batch, deque), chunks))
+        results, stats = [], {'states': 0, 'transitions': 0, 'runs': 0, 'wall': 0.0, 'cmd': ''}
+        for r, st in outs:
+            results += r
+            for k in ('states', 'transitions', 'runs', 'wall'):
+                stats[k] += st[k]
+            stats['cmd'] = st['cmd']
+        return results, stats
+    return _validate(spec, module, constants, traces, timeout, workers, extra_cfg, max_batch, deque)
+
+
+def _validate(spec, module, constants, traces, timeout=900, workers=1,
+              extra_cfg='', max_batch=400, deque=False):
     '''
     constants : text for the CONSTANTS section of the generated cfg
     traces    : list of dicts (each gets 'tid' = position in its batch)
